@@ -151,7 +151,11 @@ func (r *Reader) declaredSlides() []string {
 
 	slideFiles := make([]string, 0, len(r.presentation.SlideIdList.SlideId))
 	for _, sldID := range r.presentation.SlideIdList.SlideId {
-		target, ok := targets[sldID.RID]
+		rid := sldID.RID
+		if rid == "" {
+			rid = sldID.RIDStrict
+		}
+		target, ok := targets[rid]
 		if !ok || target == "" {
 			continue
 		}
